@@ -156,7 +156,7 @@ package rle
 //@   safety[C04] slice-bounds index makeslice-len
 //@   modifies obj(r), rd
 //@   ensures freshOrNil(res0)
-//@   ensures[C04] err == nil && width >= 1 ==> #res0 == (header / 2) * 8
+//@   ensures[C04,C07] err == nil && width >= 1 ==> #res0 == (header / 2) * 8
 //@   ensures[C10] err == nil ==> (rfault ==> old(rfault))
 //@ loop readRLEBitPacked#1
 //@   invariant freshOrNil(out) && freshsince(rawBytes) && (rfault ==> old(rfault))
@@ -171,14 +171,14 @@ package rle
 //@   safety[C04] slice-bounds index makeslice-len
 //@   modifies obj(r), rd
 //@   ensures freshOrNil(res0)
-//@   ensures[C04] err == nil ==> #res0 == header / 2
+//@   ensures[C04,C07] err == nil ==> #res0 == header / 2
 // every value of a repeated run is the run's value, whatever the run's length
-//@   ensures[C04] err == nil ==> (forall k in 0..#res0: res0[k] == lastRunVal)
+//@   ensures[C04,C07] err == nil ==> (forall k in 0..#res0: res0[k] == lastRunVal)
 //@   ensures[C10] err == nil ==> (rfault ==> old(rfault))
 //@ loop readRLE#1
 //@   invariant freshsince(out) && (rfault ==> old(rfault))
 //@   invariant[C04] 0 <= i && #out == count && count == header / 2
-//@   invariant[C04] forall k in 0..i: k < #out ==> out[k] == value
+//@   invariant[C04,C07] forall k in 0..i: k < #out ==> out[k] == value
 
 //@ func readIntLittleEndianPaddedOnBitWidth
 //@   requires dyn(in) == typeid("*bytes.Reader") && payload(in) != 0
